@@ -166,7 +166,15 @@ func checkC11(c *Case, s *Stats) error {
 			}
 		}
 	}
-	// 2. all workers concurrently on the shared instance
+	// 2. all workers concurrently on ONE shared instance. It is a second,
+	// identically prepared instance that no call has touched yet, so that state
+	// initialised lazily on first use is initialised under concurrency
+	// (the sequential pass above would otherwise warm it up).
+	_, st2, err := c.load()
+	if err != nil {
+		return err
+	}
+	st = st2
 	rounds := 1
 	if c.Scrib > 1 {
 		rounds = c.Scrib
